@@ -101,21 +101,74 @@ vectorisePositions = FunctionSpec(
 )
 
 
-# ------------------------------------------------------------------ blur (assumed: zip_longest / any / numpy; bounded-checked by bcheck.c16)
+# ------------------------------------------------------------------ blur (verified: rows of shifted copies, zip_longest / any / numpy.array assumed as library contracts)
+def _blur_rows(SV, v, upto_j, proving):
+    """row 0 is the vector; row 2s-1 is the vector without its first s bits; row 2s is the vector behind s zero bits (s = 1 .. )"""
+    A, O, Ln = SV.v.arrs            # arrays of the rows' element arrays, offsets and lengths (absolute index of the list of rows)
+    base = SV.off
+    n = v.len
+    j, T = z3.Int('bj'), z3.Int('bT')
+    s = (j + 1) / 2                 # integer division
+    jj = base + j
+    rowA, rowO, rowL = z3.Select(A, jj), z3.Select(O, jj), z3.Select(Ln, jj)
+    rel = T - rowO
+    vat = lambda x: z3.Select(v.v.arrs[0], v.off + x)
+    odd = j % 2 == 1
+    lens = z3.Implies(z3.And(1 <= j, j < upto_j), z3.And(rowO >= 0, rowL == z3.If(odd, z3.If(n - s > 0, n - s, 0), s + n)))
+    cont = z3.Implies(z3.And(1 <= j, j < upto_j, rowO <= T, T < rowO + rowL),
+                      z3.Select(rowA, T) == z3.If(odd, vat(rel + s), z3.If(rel < s, 0, vat(rel - s))))
+    q1 = z3.ForAll([j], lens) if proving else z3.ForAll([j], lens, patterns=[z3.Select(Ln, base + j)])
+    q2 = z3.ForAll([j, T], cont) if proving else z3.ForAll([j, T], cont, patterns=[z3.Select(z3.Select(A, base + j), T)])
+    r0 = SV[0]
+    return [('row_0_is_the_vector', z3.And(r0.v.arrs[0] == v.v.arrs[0], r0.off == v.off, r0.len == n)),
+            ('row_lengths', q1), ('row_contents', q2)]
+
+def _blur_inv(L):
+    SV, v, i = L.shiftedVectors, L.vector, L.for_0
+    return [('one_row_per_shift_and_direction', z3.And(SV.len == 1 + 2 * i, SV.off == 0))] + _blur_rows(SV, v, SV.len, L.proving)
+
 def _blur_ensures(C, res):
     v, r = C.vector, C.radius
+    n = v.len
     i, j = z3.Int('i'), z3.Int('j')
-    return [('same_length', res.len == v.len),
-            ('bit_set_iff_original_bit_within_radius', forall(i, z3.Implies(rng(0, i, v.len), z3.And(
+    cl = [('same_length', res.len == n)]
+    if C.proving:
+        zl = C.note('last_zip_longest')
+        A_arr, M = zl['cells'], zl['M']
+        cell = lambda k, jx: z3.Select(z3.Select(A_arr, k), jx)
+        k, jj = z3.Int('zk'), z3.Int('zjj')
+        pat = [MP(v[jj], z3.Select(A_arr, k))]
+        cl += [('lemma_table_is_as_long_as_the_longest_row', z3.And(M >= n, M <= n + r)),
+               ('lemma_column_0_is_the_vector', z3.ForAll([k], z3.Implies(z3.And(0 <= k, k < n), cell(k, 0) == v[k]), patterns=[z3.Select(A_arr, k)])),
+               ('lemma_a_bit_to_the_right_shows_in_the_row_shifted_left', z3.ForAll([k, jj], z3.Implies(
+                   z3.And(0 <= k, k < n, k < jj, jj <= k + r, jj < n), cell(k, 2 * (jj - k) - 1) == v[jj]), patterns=pat)),
+               ('lemma_a_bit_to_the_left_shows_in_the_row_shifted_right', z3.ForAll([k, jj], z3.Implies(
+                   z3.And(0 <= k, k < n, 0 <= jj, jj < k, k - jj <= r), cell(k, 2 * (k - jj)) == v[jj]), patterns=pat)),
+               ('lemma_every_set_cell_comes_from_a_bit_within_the_radius', z3.ForAll([k, j], z3.Implies(
+                   z3.And(0 <= k, k < n, 0 <= j, j < 2 * r + 1, cell(k, j) != 0),
+                   z3.Exists([jj], z3.And(0 <= jj, jj < n, k - r <= jj, jj <= k + r, v[jj] != 0))), patterns=[cell(k, j)]))]
+    if C.proving:
+        near = lambda i: z3.Exists([j], z3.And(rng(0, j, n), i - r <= j, j <= i + r, v[j] != 0))
+        cl += [('lemma_result_bit_is_1_exactly_when_some_cell_of_its_column_is_set', z3.ForAll([i], z3.Implies(rng(0, i, n), z3.And(
+                    z3.Or(res[i] == 0, res[i] == 1), (res[i] == 1) == z3.Exists([j], z3.And(0 <= j, j < 2 * r + 1, cell(i, j) != 0)))), patterns=[res[i]])),
+               ('lemma_a_set_result_bit_has_an_original_bit_within_the_radius', z3.ForAll([i], z3.Implies(z3.And(rng(0, i, n), res[i] == 1), near(i)), patterns=[res[i]])),
+               ('lemma_an_original_bit_within_the_radius_sets_the_result_bit', z3.ForAll([i, j], z3.Implies(
+                   z3.And(rng(0, i, n), rng(0, j, n), i - r <= j, j <= i + r, v[j] != 0), res[i] == 1), patterns=[MP(res[i], v[j])]))]
+    cl += [('bit_set_iff_original_bit_within_radius', forall(i, z3.Implies(rng(0, i, n), z3.And(
                 z3.Or(res[i] == 0, res[i] == 1),
-                (res[i] == 1) == z3.Exists([j], z3.And(rng(0, j, v.len), i - r <= j, j <= i + r, v[j] != 0)))), [res[i]]))]
+                (res[i] == 1) == z3.Exists([j], z3.And(rng(0, j, n), i - r <= j, j <= i + r, v[j] != 0)))), [res[i]]))]
+    return cl
+
 
 
 blur = FunctionSpec(
     file='src/correlation/vectorise.py', qualname='blur', params=dict(vector=LIST(INT), radius=INT), returns=LIST(INT),
-    requires=lambda C: [('radius_nonnegative', C.radius >= 0)], ensures=_blur_ensures, trusted=True,
-    raises={'ValueError': lambda C: C.radius < 0}, serves=('C16',),
-    note="ASSUMED contract (zip_longest, any, numpy array are outside the verifier); checked exhaustively on all bit vectors up to length 8/11 by bcheck.c16")
+    requires=lambda C: [], ensures=_blur_ensures,
+    raises={'ValueError': lambda C: C.radius < 0}, loops={'for#0': Loop(inv=_blur_inv, kinds={'shiftedVectors': LIST(LIST(INT))})}, serves=('C16',),
+    note="a result bit is 1 exactly when an original bit (non-zero entry) lies within the radius, the length is kept, ValueError exactly for a negative radius: "
+         "invariant over the list of shifted copies (row 2s-1 = the vector without its first s entries, row 2s = the vector behind s zeros), then the table "
+         "of zip_longest column by column (library contracts assumed for zip_longest, any, numpy.array); also checked exhaustively on all bit vectors up to "
+         "length 8/11 by bcheck.c16")
 
 
 # ------------------------------------------------------------------ SequenceGenerator.positionsToSequence (composition)
